@@ -21,7 +21,7 @@
        SameType         every copied node keeps kind and type tag                                          *)
 EXTENDS HeapDefs
 
-CONSTANTS MaxDepth,     \* initial objects: every tree of this depth or less
+CONSTANTS MaxDepth,     \* initial objects: every object whose tree has this depth or less (paths of <= MaxDepth steps)
           MaxUpdates,   \* length of the update sequence
           Mode,
           ShareSet,     \* subset of BOOLEAN: TRUE = equal subtrees of the initial object are ONE node (aliasing)
@@ -106,7 +106,9 @@ Rebuild(h, n, path, v) ==
 \* ---------- state machine ----------
 NoUpdate == [ old |-> 0, new |-> 0, path |-> << >>, v |-> 0 ]
 
-Init == \E s \in Shapes(MaxDepth), sh \in ShareSet :
+\* the receiver of aset is always an object (lists, dicts and leaves have no aset)
+RootShapes == { s \in Shapes(MaxDepth) : s.kind = "obj" }
+Init == \E s \in RootShapes, sh \in ShareSet :
            \E b \in { Build([ h |-> << >>, memo |-> << >> ], s, sh) } :
                /\ heap = b.h /\ roots = << b.id >> /\ prev = b.h /\ last = NoUpdate
 
